@@ -1164,7 +1164,7 @@ def synthetic_check():
                     '            out[n] = type(e).__name__\n'
                     'print(json.dumps(out))\n')
             r = subprocess.run([sys.executable, '-c', code], capture_output=True, text=True, cwd=tmp,
-                               env=dict(os.environ, PYTHONPATH=tmp), timeout=300)
+                               env=dict(os.environ, PYTHONPATH=tmp), timeout=900)
             if r.returncode != 0:
                 raise Disagreement(f'synthetic package: pristine interpreter failed on {name}: {r.stderr[-300:]}')
             return json.loads(r.stdout.strip().splitlines()[-1])
